@@ -19,6 +19,7 @@ VARIABLES proj, banned
 vars == <<proj, banned>>
 
 IncTok(n) == [t |-> "I", k |-> "INCLUDE", p |-> <<n>>, a |-> "", e |-> FALSE, b |-> "", c |-> ""]
+BadLine == [t |-> "X", k |-> "NUL", p |-> <<>>, a |-> "", e |-> FALSE, b |-> "", c |-> ""]
 Unused == << D("MACRO", <<"@unused">>, "", TRUE, "", ""), D("TYPE", <<"@t5", "any">>, "", FALSE, "", ""), CloseTok >>
 
 Projects ==
@@ -40,7 +41,11 @@ Projects ==
    p9 |-> [root |-> DocOf(<<"t1">>) \o << D("URL", <<"pf">>, "", FALSE, "", ""), D("Method", <<"foo">>, "", FALSE, "", "") >>, inc |-> <<>>],                                            \* no Protocol
    p10 |-> [root |-> DocOf(<<"srv">>) \o << D("TYPE", <<"@t9">>, "", FALSE, "objen", "") >>, inc |-> <<>>],                                                                            \* no ENUM
    p11 |-> [root |-> DocOf(<<"t1">>) \o << D("GET", <<"pa">>, "", FALSE, "", ""), D("RESP", <<"any">>, "", FALSE, "", "200"), IncTok("inc.jst") >>,
-            inc |-> << D("PASTE", <<"@nope">>, "", FALSE, "", "") >>]]                                                                                                                 \* no MACRO, the PASTE in an included file
+            inc |-> << D("PASTE", <<"@nope">>, "", FALSE, "", "") >>],
+   \* a line the scanner rejects (a NUL byte) BEHIND directives of the same file: what is met first in scan order wins, a ban too
+   p12 |-> [root |-> DocOf(<<"t1">>) \o << D("GET", <<"pa">>, "", FALSE, "", ""), D("RESP", <<"any">>, "", FALSE, "", "200"), IncTok("inc.jst"),
+                                          D("TAG", <<"@g1">>, "", FALSE, "", ""), BadLine >>,
+            inc |-> << D("URL", <<"pz">>, "", FALSE, "", ""), D("POST", <<>>, "", FALSE, "", ""), D("PASTE", <<"@m1">>, "", FALSE, "", ""), BadLine >>]]                                                                                                                 \* no MACRO, the PASTE in an included file
 
 Init == proj \in DOMAIN Projects /\ banned \in ({{k1, k2} : k1, k2 \in Kinds} \cup (IF Deep THEN {{k1, k2, k3} : k1, k2, k3 \in Kinds} ELSE {}))     \* singletons, pairs (and triples)
 Next == UNCHANGED vars
@@ -59,7 +64,7 @@ Occurs == \E f \in DOMAIN Content : \E x \in 1..Len(Content[f]) :
 BanRule == IF Occurs THEN SB.res = "err" /\ ( (SB.err.cls = "notallowed" /\ Content[SB.err.f][SB.err.i].k \in banned)
                                              \/ (S0.res = "err" /\ SB.err = S0.err) )
            ELSE SB = S0
-BaseOK == proj \notin {"p4", "p5"} => S0.res = "ok"
+BaseOK == proj \notin {"p4", "p5", "p12"} => S0.res = "ok"
 
 ASSUME PrintT("L " \o ToJson(PoolsJson))
 EmitInv == PrintT("E " \o ToJson([proj |-> proj, banned |-> banned, content |-> Content, occurs |-> Occurs,
